@@ -548,24 +548,9 @@ func runC20(c *Ctx) {
 		})
 		okShape := theIf != nil
 		if theIf != nil {
-			for _, cj := range conjuncts(theIf.Cond) {
-				u, ok := ast.Unparen(cj).(*ast.UnaryExpr)
-				if !ok || u.Op != token.NOT {
-					okShape = false
-					continue
-				}
-				call, ok := ast.Unparen(u.X).(*ast.CallExpr)
-				if !ok {
-					okShape = false
-					continue
-				}
-				id := calleeID(info, call)
-				if id == "unicode.Is" && len(call.Args) == 2 {
-					got = append(got, "unicode.Is("+exprString(call.Args[0])+")")
-				} else {
-					got = append(got, id)
-				}
-			}
+			var okR bool
+			got, okR = rejectedUnless(p, f, theIf.Cond)
+			okShape = okShape && okR
 			// the rejecting branch returns an error
 			if l := len(theIf.Body.List); l == 0 {
 				okShape = false
@@ -687,4 +672,49 @@ func litMatchesTemplate(lit string, t ptemplate) bool {
 		return true
 	}
 	return strings.HasPrefix(lit, pre) && strings.HasSuffix(lit, suf) && len(lit) >= len(pre)+len(suf)
+}
+
+// rejectedUnless reads a rejecting condition over one rune — `!A(c) && !B(c)`, `!(A(c) || B(c))`, `!isNameRune(c)` with
+// a predicate helper that returns such a disjunction — and returns the classes whose members are NOT rejected.
+func rejectedUnless(p *Prog, f *FuncInfo, cond ast.Expr) ([]string, bool) {
+	switch e := ast.Unparen(cond).(type) {
+	case *ast.BinaryExpr:
+		if e.Op == token.LAND {
+			l, ok1 := rejectedUnless(p, f, e.X)
+			r, ok2 := rejectedUnless(p, f, e.Y)
+			return append(l, r...), ok1 && ok2
+		}
+	case *ast.UnaryExpr:
+		if e.Op == token.NOT {
+			return acceptedRunes(p, f, e.X, 0)
+		}
+	}
+	return nil, false
+}
+
+func acceptedRunes(p *Prog, f *FuncInfo, x ast.Expr, depth int) ([]string, bool) {
+	switch e := ast.Unparen(x).(type) {
+	case *ast.BinaryExpr:
+		if e.Op == token.LOR {
+			l, ok1 := acceptedRunes(p, f, e.X, depth)
+			r, ok2 := acceptedRunes(p, f, e.Y, depth)
+			return append(l, r...), ok1 && ok2
+		}
+	case *ast.CallExpr:
+		id := calleeID(f.Info(), e)
+		if id == "unicode.Is" && len(e.Args) == 2 {
+			return []string{"unicode.Is(" + exprString(e.Args[0]) + ")"}, true
+		}
+		if strings.HasPrefix(id, "unicode.") {
+			return []string{id}, true
+		}
+		// a predicate helper of the repository: a single `return <disjunction>`
+		if h := p.FuncOpt(id); h != nil && h.Decl.Body != nil && depth < 2 && len(h.Decl.Body.List) == 1 {
+			if r, ok := h.Decl.Body.List[0].(*ast.ReturnStmt); ok && len(r.Results) == 1 {
+				return acceptedRunes(p, h, r.Results[0], depth+1)
+			}
+		}
+		return []string{id}, true
+	}
+	return nil, false
 }
